@@ -68,7 +68,7 @@ func c20describe(hist []porcupine.Operation, skipClient int, f func(in, out inte
 
 func c20Gen(r *sim.Rand, tier string) *sim.Case {
 	cs := &sim.Case{Knobs: map[string]int64{}}
-	cs.Variant = []string{"vlan", "qinq", "pppoe", "pppoe-wrap", "state-session", "state-lease", "allocstore", "submgr", "circuit"}[r.Weighted(60, 32, 32, 3, 14, 14, 18, 20, 8)]
+	cs.Variant = []string{"vlan", "qinq", "pppoe", "pppoe-wrap", "state-session", "state-lease", "allocstore", "submgr", "circuit"}[r.Weighted(60, 32, 32, 3, 14, 14, 18, 45, 8)]
 	ncl := sim.Pick(r, 1, 1, 1, 2, 2, 3, 4)
 	if cs.Variant == "pppoe-wrap" || cs.Variant == "circuit" {
 		ncl = 1
@@ -187,6 +187,7 @@ func c20Gen(r *sim.Rand, tier string) *sim.Case {
 		}
 	case "submgr":
 		cs.Knobs["nip"] = int64(r.Range(1, 3))
+		cs.Knobs["v6"] = int64(r.Weighted(1, 2))
 		gen = func(cl int) sim.Op {
 			switch r.Weighted(8, 8, 7, 2, 2) {
 			case 0:
@@ -259,16 +260,25 @@ func c20Gen(r *sim.Rand, tier string) *sim.Case {
 			total += 8
 			continue
 		}
-		if cs.Variant == "submgr" && ncl >= 2 && r.P(20) {
+		if cs.Variant == "submgr" && ncl >= 2 && r.P(50) {
 			// motif: one session is re-assigned while it is terminated (twice, with a third
 			// caller), other sessions take addresses meanwhile and are then terminated too
 			sl := int64(r.N(6))
-			cs.Ops = append(cs.Ops, sim.Op{K: "assign", A: []int64{0, sl}}, sim.Op{K: "terminate", A: []int64{1, sl}}, sim.Op{K: "assign", A: []int64{1, sl + 1}})
+			hotRef, nextRef := int64(0), int64(0)
+			if r.P(60) {
+				// ... on sessions that certainly exist: the hot one (holding its addresses) and a
+				// fresh one without any, created just before
+				hotRef, nextRef = 2, 1
+				ma := r.N(n)
+				cs.Ops = append(cs.Ops, sim.Op{K: "create", A: []int64{0, int64(ma)}}, sim.Op{K: "assign", A: []int64{0, 0, 1}},
+					sim.Op{K: "create", A: []int64{0, int64((ma + 1 + r.N(n-1)) % n)}}, sim.Op{K: "tick", A: []int64{1}})
+			}
+			cs.Ops = append(cs.Ops, sim.Op{K: "assign", A: []int64{0, sl, hotRef}}, sim.Op{K: "terminate", A: []int64{1, sl, hotRef}}, sim.Op{K: "assign", A: []int64{1, sl + 1, nextRef}})
 			if ncl >= 3 {
-				cs.Ops = append(cs.Ops, sim.Op{K: "terminate", A: []int64{2, sl}}, sim.Op{K: "assign", A: []int64{2, sl + 2}})
+				cs.Ops = append(cs.Ops, sim.Op{K: "terminate", A: []int64{2, sl, hotRef}}, sim.Op{K: "assign", A: []int64{2, sl + 2}})
 			}
 			cs.Ops = append(cs.Ops, sim.Op{K: "tick", A: []int64{1}},
-				sim.Op{K: "create", A: []int64{0, int64(r.N(n))}}, sim.Op{K: "assign", A: []int64{0, sl + 3}}, sim.Op{K: "terminate", A: []int64{0, sl + 3}},
+				sim.Op{K: "create", A: []int64{0, int64(r.N(n))}}, sim.Op{K: "assign", A: []int64{0, sl + 3, int64(r.N(2))}}, sim.Op{K: "terminate", A: []int64{0, sl + 3}},
 				sim.Op{K: "tick", A: []int64{1}})
 			total += 8
 			continue
@@ -433,8 +443,8 @@ func init() {
 			"subscriber.Manager (CreateSession, AssignAddress, TerminateSession, lookups by id / MAC / IP)", "ebpf.MakeCircuitIDKey, ebpf.HashCircuitID"},
 		Stub: []string{"NTE store behind LoadFromStore/SyncToNTE (in-memory map of nexus.NTE records)", "address allocator behind subscriber.Manager (lowest-free model over 1-3 addresses)",
 			"fixed-key circuit-id map (harness map keyed by the real MakeCircuitIDKey/HashCircuitID; kernel maps absent)", "callers (harness tasks)"},
-		Rule: "cases: one component per run; 3-16 rounds of 1-4 callers x 0-2 ops over <=5 NTEs/subscribers/MACs (VLAN: half of a round's ops go to one hot NTE, plus a release-vs-move motif; scheduling quanta up to 256 yields), tag ranges 1-2 outer x 1-3 inner, stored-pair loads (restart / reload, incl. conflicting records), two sessions per MAC (PPPoE session table only; state.Store records keep distinct MACs and addresses, key changes through Update), id wrap-around (65535 create/remove pairs), cleanup under virtual time; non-trivial = >=3 completed operations and (a fault fired or >2 context switches); distinct = distinct (case hash, schedule fingerprint)",
-		QuickRuns:    30000,
+		Rule: "cases: one component per run; 3-16 rounds of 1-4 callers x 0-2 ops over <=5 NTEs/subscribers/MACs (VLAN: half of a round's ops go to one hot NTE, plus a release-vs-move motif; scheduling quanta up to 256 yields), tag ranges 1-2 outer x 1-3 inner, stored-pair loads (restart / reload, incl. conflicting records), two sessions per MAC (PPPoE session table only; state.Store records keep distinct MACs and addresses, key changes through Update), id wrap-around (65535 create/remove pairs), cleanup under virtual time; subscriber.Manager: single or dual stack over an idempotent allocator stub whose calls are scheduling points with an occasional 1 ms latency, with a motif (a session holding its addresses is re-assigned while it is terminated, a fresh session is assigned meanwhile, a third afterwards); non-trivial = >=3 completed operations and (a fault fired or >2 context switches); distinct = distinct (case hash, schedule fingerprint)",
+		QuickRuns:    60000,
 		ThoroughRuns: 1500000,
 		Assumptions: []string{"a tag value of 0 is never offered (0 = no tag)",
 			"state.Store: live sessions (leases) never share a MAC or an address - its by-MAC / by-IP indexes are single-valued by design, so giving a key of a live record to a second record (create or update) is a caller error outside the property; two sessions from one MAC are exercised on pppoe.SessionManager only", "an operation may fail at any time unless a released key would have satisfied it; a failed operation leaves other subscribers' mappings unchanged",
